@@ -447,6 +447,148 @@ static string opRename(const vector<string>& a)
 	return out + " A=" + dumpTA(A);
 }
 
+
+// ---------------------------------------------------------------- word automata (histories)
+using FA = ExplicitFiniteAut;
+
+struct CaptureSerializer : public Serialization::AbstrSerializer
+{
+	AutDescription last;
+	virtual std::string Serialize(const AutDescription& desc) override { last = desc; return ""; }
+};
+
+static const int NFA_SYMS = 8;
+static void initFaAlphabet()
+{
+	static bool done = false;
+	if (done) return;
+	FA tmp;
+	auto transl = tmp.GetAlphabet()->GetSymbolTransl();
+	for (int i = 0; i < NFA_SYMS; ++i) {
+		size_t c = (*transl)("a" + std::to_string(i));
+		if (c != static_cast<size_t>(i)) throw std::runtime_error("NFA alphabet numbering");
+	}
+	done = true;
+}
+
+struct NfaT { vector<vector<size_t>> trans; vector<size_t> starts, finals; };
+
+static NfaT parseNfa(const string& tok)
+{
+	NfaT n;
+	vector<string> parts;
+	{	// split keeping empty fields
+		string cur;
+		for (char c : tok) { if (c == '|') { parts.push_back(cur); cur.clear(); } else cur.push_back(c); }
+		parts.push_back(cur);
+	}
+	if (parts.size() != 3) throw std::invalid_argument("NFA token");
+	for (const string& e : split(parts[0], ';')) {
+		vector<string> f = split(e, ',');
+		n.trans.push_back({toN(f.at(0)), toN(f.at(1)), toN(f.at(2))});
+	}
+	for (const string& q : split(parts[1], ',')) n.starts.push_back(toN(q));
+	for (const string& q : split(parts[2], ',')) n.finals.push_back(toN(q));
+	return n;
+}
+
+static FA buildNfa(const NfaT& n)
+{
+	initFaAlphabet();
+	FA a;
+	for (auto& t : n.trans) a.AddTransition(t[0], t[1], t[2]);
+	for (size_t q : n.starts) a.SetStateStart(q, 0);
+	for (size_t q : n.finals) a.SetStateFinal(q);
+	return a;
+}
+
+// canonical text of an NFA read through its only observer, the dump
+static string dumpNfa(const FA& a)
+{
+	CaptureSerializer cs;
+	a.DumpToString(cs);
+	vector<string> tr;
+	std::set<size_t> starts;
+	for (auto& t : cs.last.transitions) {
+		if (t.first.empty()) { starts.insert(toN(t.third)); continue; }
+		if (t.first.size() != 1 || t.second.size() < 2 || t.second[0] != 'a') throw std::runtime_error("unexpected NFA dump");
+		tr.push_back(t.first[0] + "," + t.second.substr(1) + "," + t.third);
+	}
+	std::sort(tr.begin(), tr.end(), [](const string& x, const string& y) {
+		return split(x, ',') < split(y, ',') ; });
+	std::ostringstream os;
+	for (size_t i = 0; i < tr.size(); ++i) { if (i) os << ";"; os << tr[i]; }
+	os << "|";
+	bool first = true;
+	for (size_t q : starts) { if (!first) os << ","; os << q; first = false; }
+	os << "|";
+	std::set<size_t> fs;
+	for (auto& f : cs.last.finalStates) fs.insert(toN(f));
+	first = true;
+	for (size_t q : fs) { if (!first) os << ","; os << q; first = false; }
+	return os.str();
+}
+
+static char faInclOne(const FA& a, const FA& b, int alg)
+{
+	try {
+		if (alg == 3) return FA::CheckInclusion(a, b) ? '1' : '0';
+		InclParam ip;
+		ip.SetAlgorithm(alg == 0 ? InclParam::e_algorithm::antichains : InclParam::e_algorithm::congruences);
+		ip.SetSearchOrder(alg == 2 ? InclParam::e_search_order::breadth : InclParam::e_search_order::depth);
+		ip.SetUseSimulation(false);
+		return FA::CheckInclusion(a, b, ip) ? '1' : '0';
+	}
+	catch (const NotImplementedException&) { return 'N'; }
+	catch (const std::exception&) { return 'E'; }
+}
+
+// nfah <step> <step> ... ; after every step every live entry is dumped
+static string opNfaHist(const vector<string>& steps)
+{
+	initFaAlphabet();
+	vector<std::unique_ptr<FA>> pool;
+	std::ostringstream out;
+	for (size_t k = 0; k < steps.size(); ++k) {
+		vector<string> f = split(steps[k], ':');
+		const string& op = f.at(0);
+		auto ent = [&](size_t i) -> FA& { size_t ix = toN(f.at(i)); if (ix >= pool.size() || !pool[ix]) throw std::invalid_argument("dead entry"); return *pool[ix]; };
+		if (op == "def") { pool.emplace_back(new FA(buildNfa(parseNfa(steps[k].substr(4))))); }
+		else if (op == "copy") { pool.emplace_back(new FA(ent(1))); }
+		else if (op == "union") {
+			AutBase::StateToStateMap ml, mr;
+			pool.emplace_back(new FA(FA::Union(ent(1), ent(2), &ml, &mr)));
+			out << " ml" << k << "=" << dumpMap(ml) << " mr" << k << "=" << dumpMap(mr);
+		}
+		else if (op == "uniondisj") { pool.emplace_back(new FA(FA::UnionDisjointStates(ent(1), ent(2)))); }
+		else if (op == "isect") {
+			AutBase::ProductTranslMap m;
+			pool.emplace_back(new FA(FA::Intersection(ent(1), ent(2), &m)));
+			out << " m" << k << "=" << dumpPairMap(m);
+		}
+		else if (op == "rev") { pool.emplace_back(new FA(ent(1).Reverse())); }
+		else if (op == "unreach") { pool.emplace_back(new FA(ent(1).RemoveUnreachableStates())); }
+		else if (op == "useless") { pool.emplace_back(new FA(ent(1).RemoveUselessStates())); }
+		else if (op == "cand") { pool.emplace_back(new FA(ent(1).GetCandidateTree())); }
+		else if (op == "incl") {
+			FA& a = ent(1); FA& b = ent(2);
+			string v;
+			for (int alg = 0; alg < 4; ++alg) v += forked([&]() { return faInclOne(a, b, alg); }, 5);
+			out << " v" << k << "=" << v;
+		}
+		else if (op == "add") { vector<string> t = split(f.at(2), ','); ent(1).AddTransition(toN(t.at(0)), toN(t.at(1)), toN(t.at(2))); }
+		else if (op == "final") { ent(1).SetStateFinal(toN(f.at(2))); }
+		else if (op == "start") { ent(1).SetStateStart(toN(f.at(2)), 0); }
+		else if (op == "assign") { ent(1) = ent(2); }
+		else if (op == "move") { pool.emplace_back(new FA(std::move(ent(1)))); pool[toN(f.at(1))].reset(); }
+		else if (op == "kill") { pool[toN(f.at(1))].reset(); }
+		else throw std::invalid_argument("unknown step " + op);
+		out << " S" << k;
+		for (size_t i = 0; i < pool.size(); ++i) if (pool[i]) out << " " << k << "." << i << "=" << dumpNfa(*pool[i]);
+	}
+	return out.str().substr(1);
+}
+
 // ---------------------------------------------------------------- dispatcher
 static string runCase(const string& kind, const vector<string>& args)
 {
@@ -464,6 +606,7 @@ static string runCase(const string& kind, const vector<string>& args)
 	if (kind == "simup") return opSim(args, true);
 	if (kind == "compl") return opCompl(args);
 	if (kind == "rename") return opRename(args);
+	if (kind == "nfah") return opNfaHist(args);
 	return "BADKIND";
 }
 
